@@ -47,6 +47,7 @@ func raceMain(args []string) {
 				}
 				rc, _ := genRenderCase(newRng(uint64(id), "reload-mgr"), false)
 				rc.Files = [][2]string{{"main.html", `<p :if="${t}" :text="${a}">x</p><i :else>no</i>`}}
+				rc.Cfg = nil
 				m, err, _ := implLoad(rc, nil)
 				if err != nil {
 					return nil, err
